@@ -1,0 +1,11 @@
+//go:build !verif
+
+// Package vhook holds the verification hooks of wrgl. Without the "verif"
+// build tag every hook is an empty function that the compiler inlines away.
+package vhook
+
+func Write(store, op string, key []byte)   {}
+func Enter(point string) int64             { return 0 }
+func Leave(point string, tok int64)        {}
+func Event(name string, kv ...interface{}) {}
+func Yield(point string)                   {}
